@@ -476,6 +476,7 @@ def build_chain_graph(r):
     r.shuffle(order)
     have = set()
     links = []
+    int_ids = gen.chance(r, 0.3)  # links (GFA2: edges) identified by integer-looking names: 1, 2, ...
 
     def add(f, fo, t, to, ov=None):
         if ov is None:
@@ -487,6 +488,8 @@ def build_chain_graph(r):
         if gen.chance(r, 0.5):
             f, fo, t, to = t, INV[to], f, INV[fo]
         tg = [["ab", "i", str(len(links))]] if gen.chance(r, 0.3) else []
+        if int_ids and gen.chance(r, 0.7):
+            tg.append(["ID", "Z", str(len(links) + 1)])
         links.append(["L", [f, fo, t, to, ov], tg])
 
     i = 0
@@ -538,9 +541,11 @@ def to_gfa2_graph(r, doc):
             fm = lambda p, n: "%d$" % p if p == n else str(p)
             b1, e1 = (lf - k, lf) if fo == "+" else (0, k)
             b2, e2 = (0, k) if to == "+" else (lt - k, lt)
-            rec = ["E", ["*", f + fo, t + to, fm(b1, lf), fm(e1, lf), fm(b2, lt), fm(e2, lt), ("%dM" % k) if k else "*"], list(l[2])]
+            eid = [t_[2] for t_ in l[2] if t_[0] == "ID"]
+            rec = ["E", [eid[0] if eid else "*", f + fo, t + to, fm(b1, lf), fm(e1, lf), fm(b2, lt), fm(e2, lt), ("%dM" % k) if k else "*"],
+                   [t_ for t_ in l[2] if t_[0] != "ID"]]
             lines.append(rec)
-            if gen.chance(r, 0.15):
+            if not eid and gen.chance(r, 0.15):
                 lines.append(["E", list(rec[1]), list(rec[2])])
         elif l[0] in ("#", "H"):
             lines.append(l if l[0] == "#" else ["H", [], [["VN", "Z", "2.0"]]])
